@@ -8,7 +8,12 @@
 (*   sfx = [p, v, w]   opcode suffix present?                              *)
 (*   ops[k] = [c, cv, cw, a, av, aw, al, aen]                              *)
 (*            c in none/pre/suf: operand code and its position             *)
-(*            a in none/arg:     operand argument                          *)
+(*            a in none/arg/rel/relend/slice: operand argument; for arg    *)
+(*            the operand's value IS the field value av; for the address-  *)
+(*            relative kinds the statement names a TARGET address and the  *)
+(*            field carries target - own address (rel), target - address   *)
+(*            of the statement's last byte (relend) or the low aw bits of  *)
+(*            a target in the statement's own 2^aw page (slice)            *)
 (* Documented order: prefix-positioned operand codes, opcode, suffix-      *)
 (* positioned operand codes, opcode suffix, arguments.  Within the prefix  *)
 (* group the first operand's code is nearest to the opcode (pinned to the  *)
@@ -39,7 +44,7 @@ FieldList(l) ==
         suf0 == SelectSeq(l.ops, LAMBDA o : o.c = "suf")
         pre  == IF l.revCode THEN Reverse(pre0) ELSE pre0
         suf  == IF l.revCode THEN Reverse(suf0) ELSE suf0
-        arg0 == SelectSeq(l.ops, LAMBDA o : o.a = "arg")
+        arg0 == SelectSeq(l.ops, LAMBDA o : o.a # "none")
         args == IF l.revArg THEN Reverse(arg0) ELSE arg0
         opc  == F(l.opv, l.opw, FALSE, En(l.opEn, l.defEn))
         sfx  == IF l.sfx.p THEN <<F(l.sfx.v, l.sfx.w, FALSE, En(l.opEn, l.defEn))>> ELSE <<>>
@@ -55,7 +60,7 @@ Spec == Init /\ [][Next]_lay
 \* the groups appear in the documented order
 NPre(l) == Len(SelectSeq(l.ops, LAMBDA o : o.c = "pre"))
 NSuf(l) == Len(SelectSeq(l.ops, LAMBDA o : o.c = "suf"))
-NArg(l) == Len(SelectSeq(l.ops, LAMBDA o : o.a = "arg"))
+NArg(l) == Len(SelectSeq(l.ops, LAMBDA o : o.a # "none"))
 GroupsInOrder ==
     LET fl == FieldList(lay) IN
     /\ Len(fl) = NPre(lay) + 1 + NSuf(lay) + (IF lay.sfx.p THEN 1 ELSE 0) + NArg(lay)
@@ -73,6 +78,26 @@ ReverseTouchesOnlyItsGroup ==
         /\ SubSeq(fc, 1, NPre(lay)) = Reverse(SubSeq(fl, 1, NPre(lay)))
         /\ fc[NPre(lay) + 1] = fl[NPre(lay) + 1]
         /\ SubSeq(fc, NPre(lay) + 2, NPre(lay) + 1 + NSuf(lay)) = Reverse(SubSeq(fl, NPre(lay) + 2, NPre(lay) + 1 + NSuf(lay)))
+\* address-relative operands: the target the statement has to name at a given own address so that the field carries av,
+\* and back; the bytes (Bytes) are a function of the layout alone, whatever the address
+Placements == <<5000, 9041>>
+TargetOf(o, addr, size) ==
+    CASE o.a = "rel"    -> addr + o.av
+      [] o.a = "relend" -> addr + (size - 1) + o.av
+      [] o.a = "slice"  -> (addr \div Pow2(o.aw)) * Pow2(o.aw) + Unsigned(o.av, o.aw)
+      [] OTHER -> o.av
+FieldOf(o, t, addr, size) ==
+    CASE o.a = "rel"    -> t - addr
+      [] o.a = "relend" -> t - (addr + size - 1)
+      [] o.a = "slice"  -> t % Pow2(o.aw)
+      [] OTHER -> t
+AddressRelativeRoundTrip ==
+    \A p \in 1..Len(Placements), k \in 1..Len(lay.ops) :
+        LET o == lay.ops[k]
+            n == Len(Bytes(lay))
+            t == TargetOf(o, Placements[p], n)
+        IN  /\ Unsigned(FieldOf(o, t, Placements[p], n), o.aw) = Unsigned(o.av, o.aw)
+            /\ o.a = "slice" => t \div Pow2(o.aw) = Placements[p] \div Pow2(o.aw)
 SizeIsReserved == Len(Bytes(lay)) = ReservedBytes(FieldList(lay))
 
 LayJ == [defEn |-> lay.defEn, opv |-> lay.opv, opw |-> lay.opw, opEn |-> lay.opEn,
@@ -81,5 +106,6 @@ LayJ == [defEn |-> lay.defEn, opv |-> lay.opv, opw |-> lay.opw, opEn |-> lay.opE
          ops |-> [k \in 1..Len(lay.ops) |->
                     <<lay.ops[k].c, lay.ops[k].cv, lay.ops[k].cw, lay.ops[k].a, lay.ops[k].av, lay.ops[k].aw,
                       IF lay.ops[k].al THEN 1 ELSE 0, lay.ops[k].aen>>]]
-Emit == PrintT(<<"EMIT", ToJson([l |-> LayJ, b |-> Bytes(lay)])>>)
+Targets == [p \in 1..Len(Placements) |-> [k \in 1..Len(lay.ops) |-> TargetOf(lay.ops[k], Placements[p], Len(Bytes(lay)))]]
+Emit == PrintT(<<"EMIT", ToJson([l |-> LayJ, b |-> Bytes(lay), pl |-> Placements, t |-> Targets])>>)
 =============================================================================
